@@ -158,7 +158,8 @@ Record NodeWF (n : onode) : Prop := mkNW {
 (* Bounded, node part *)
 Record NodeSmall (n : onode) : Prop := mkNS {
   ns_total : rsmall (on_total n); ns_occ : rsmall (on_occupied n); ns_alloc : rsmall (on_allocated n);
-  ns_avail : rsmall (on_available n) }.
+  ns_avail : rsmall (on_available n);
+  ns_allocs : allocs_small (on_allocs n); ns_foreign : allocs_small (on_foreign n) }.
 
 Ltac nproj := cbn [n_with n_refresh on_id on_total on_occupied on_allocated on_available on_sched on_allocs on_foreign
                    on_reservations].
@@ -192,3 +193,226 @@ Proof. intros Wt Wa Wo St Sa So H1 H2. split; [exact H1|exact H2|]. intros k.
 Lemma n_refresh_wf n : NodeWF n -> NodeWF (n_refresh n).
 Proof. intros [Wt Wo Wa Wv Wl Wf Kl Kf]. split; nproj; try assumption.
   apply Prune_wf, subFrom_wf, subFrom_wf. assumption. Qed.
+
+(* ------------------------------------------------------------------ C01.2: addAllocationInternal *)
+Definition alloc_list_of (n : onode) (x : oalloc) : list oalloc := if oa_foreign x then on_foreign n else on_allocs n.
+
+Theorem n_add_ledger n x force n' :
+  n_add n x force = Some n' -> NodeLedger n -> NodeWF n -> NodeSmall n -> wf (oa_res x) -> rsmall (oa_res x) ->
+  ~ In (oa_key x) (akeys (alloc_list_of n x)) ->
+  NodeLedger n'.
+Proof. unfold n_add, alloc_list_of. intros H [L1 L2 L3] [Wt Wo Wa Wv Wl Wf Kl Kf] [St So Sa Sv _ _] Wx Sx Hfresh.
+  destruct (force || FitIn (Some (on_available n)) (Some (oa_res x))); [|discriminate].
+  inversion H; subst n'; clear H. destruct (oa_foreign x); split; nproj; intros k;
+    specialize (St k); specialize (So k); specialize (Sa k); specialize (Sv k); specialize (Sx k).
+  - apply L1.
+  - cbn [Add oget]. rewrite addTo_getz, asum_put, (find_alloc_none _ _ Hfresh), L2; try assumption; try sm.
+  - cbn [Add oget]. rewrite Prune_getz by (apply subFrom_wf; assumption).
+    rewrite subFrom_getz, addTo_getz, L3; try assumption; try sm.
+  - rewrite addTo_getz, asum_put, (find_alloc_none _ _ Hfresh), L1; try assumption; try sm.
+  - apply L2.
+  - rewrite Prune_getz by (apply subFrom_wf; assumption).
+    rewrite subFrom_getz, addTo_getz, L3; try assumption; try sm. Qed.
+
+Lemma n_add_wf n x force n' : n_add n x force = Some n' -> NodeWF n -> wf (oa_res x) -> NodeWF n'.
+Proof. unfold n_add. intros H [Wt Wo Wa Wv Wl Wf Kl Kf] Wx.
+  destruct (force || FitIn (Some (on_available n)) (Some (oa_res x))); [|discriminate].
+  inversion H; subst n'; clear H. destruct (oa_foreign x); split; nproj; try assumption;
+    try (apply Prune_wf, subFrom_wf; assumption); try (apply allocs_wf_put; assumption); try (apply akeys_put_nodup; assumption).
+  - cbn [Add oget]. apply addTo_wf. assumption.
+  - apply addTo_wf. assumption. Qed.
+Lemma n_add_id n x force n' : n_add n x force = Some n' -> on_id n' = on_id n /\ on_sched n' = on_sched n /\ on_total n' = on_total n /\ on_reservations n' = on_reservations n.
+Proof. unfold n_add. intros H. destruct (force || FitIn (Some (on_available n)) (Some (oa_res x))); [|discriminate].
+  inversion H; subst n'. destruct (oa_foreign x); repeat split. Qed.
+
+(* C01.3: the scheduler's own (unforced) binding fits what is free: capacity - occupied - allocated *)
+Theorem n_add_fits n x n' : n_add n x false = Some n' -> NodeLedger n -> fits_free n (oa_res x) = true.
+Proof. unfold n_add. cbn [orb]. intros H [_ _ L3]. destruct (FitIn (Some (on_available n)) (Some (oa_res x))) eqn:E; [|discriminate].
+  clear H. unfold FitIn, fitIn in E. cbn [oget] in E. unfold fits_free. rewrite forallb_forall in *. intros [k v] Hin.
+  specialize (E _ Hin). cbn [fst snd] in *. unfold node_free. rewrite <- L3. unfold getz.
+  destruct (get (on_available n) k) as [lv|]; [rewrite zmax_max in E|]; lia. Qed.
+
+(* ------------------------------------------------------------------ RemoveAllocation *)
+Theorem n_remove_ledger n key : NodeLedger n -> NodeWF n -> NodeSmall n -> NodeLedger (n_remove n key).
+Proof. unfold n_remove. intros [L1 L2 L3] [Wt Wo Wa Wv Wl Wf Kl Kf] [St So Sa Sv Sl Sf].
+  destruct (find_alloc (on_allocs n) key) as [x|] eqn:E1; [|destruct (find_alloc (on_foreign n) key) as [x|] eqn:E2].
+  - assert (Wx := allocs_wf_find _ _ _ Wl E1). assert (Sx : rsmall (oa_res x)) by (apply Sl; apply (find_alloc_some _ _ _ E1)).
+    split; nproj; intros k; specialize (St k); specialize (So k); specialize (Sa k); specialize (Sv k); specialize (Sx k).
+    + rewrite Prune_getz by (apply subFrom_wf; assumption).
+      rewrite subFrom_getz, asum_del, E1, L1; try assumption; try sm.
+    + apply L2.
+    + rewrite Prune_getz by (apply subFrom_wf; assumption).
+      rewrite addTo_getz, subFrom_getz, L3; try assumption; try sm.
+  - assert (Wx := allocs_wf_find _ _ _ Wf E2). assert (Sx : rsmall (oa_res x)) by (apply Sf; apply (find_alloc_some _ _ _ E2)).
+    split; nproj; intros k; specialize (St k); specialize (So k); specialize (Sa k); specialize (Sv k); specialize (Sx k).
+    + apply L1.
+    + cbn [Sub oget]. rewrite subFrom_getz, asum_del, E2, L2; try assumption; try sm.
+    + cbn [Sub oget]. rewrite addTo_getz, subFrom_getz, L3; try assumption; try sm.
+  - split; assumption. Qed.
+Lemma n_remove_wf n key : NodeWF n -> NodeWF (n_remove n key).
+Proof. unfold n_remove. intros [Wt Wo Wa Wv Wl Wf Kl Kf].
+  destruct (find_alloc (on_allocs n) key) as [x|] eqn:E1; [|destruct (find_alloc (on_foreign n) key) as [x|] eqn:E2].
+  - split; nproj; try assumption; [apply Prune_wf, subFrom_wf; assumption|apply addTo_wf; assumption|
+      apply allocs_wf_del; assumption|apply akeys_del_nodup; assumption].
+  - split; nproj; try assumption; [cbn [Sub oget]; apply subFrom_wf; assumption|apply addTo_wf; assumption|
+      apply allocs_wf_del; assumption|apply akeys_del_nodup; assumption].
+  - split; assumption. Qed.
+Lemma n_remove_id n key : on_id (n_remove n key) = on_id n.
+Proof. unfold n_remove. destruct (find_alloc (on_allocs n) key); [reflexivity|]. destruct (find_alloc (on_foreign n) key); reflexivity. Qed.
+
+(* ------------------------------------------------------------------ SetCapacity *)
+Theorem n_set_capacity_ledger n cap : NodeLedger n -> NodeWF n -> NodeSmall n -> wf cap -> rsmall cap ->
+  NodeLedger (fst (n_set_capacity n cap)).
+Proof. unfold n_set_capacity. intros [L1 L2 L3] [Wt Wo Wa Wv Wl Wf Kl Kf] [St So Sa Sv Sl Sf] Wc Sc.
+  destruct (Equals (Some (on_total n)) (Some cap)); cbn [fst]; [split; assumption|].
+  apply n_refresh_ledger; cbn [on_total on_allocated on_occupied on_allocs on_foreign]; try assumption.
+  - apply Prune_wf. assumption.
+  - intros k. rewrite Prune_getz by assumption. apply Sc.
+  - intros k. specialize (Sa k). sm.
+  - intros k. specialize (So k). sm. Qed.
+Lemma n_set_capacity_wf n cap : NodeWF n -> wf cap -> NodeWF (fst (n_set_capacity n cap)).
+Proof. unfold n_set_capacity. intros W Wc. destruct (Equals (Some (on_total n)) (Some cap)); cbn [fst]; [assumption|].
+  apply n_refresh_wf. destruct W as [Wt Wo Wa Wv Wl Wf Kl Kf]. split; cbn [on_total on_allocated on_occupied on_available on_allocs on_foreign];
+    try assumption. apply Prune_wf. assumption. Qed.
+Lemma n_set_capacity_id n cap : on_id (fst (n_set_capacity n cap)) = on_id n.
+Proof. unfold n_set_capacity. destruct (Equals (Some (on_total n)) (Some cap)); reflexivity. Qed.
+
+(* ------------------------------------------------------------------ UpdateAllocatedResource *)
+(* delta = newres - old as functions, for the allocation [old] the node lists under the key *)
+Theorem n_update_alloc_ledger n key newres delta old :
+  NodeLedger n -> NodeWF n -> NodeSmall n -> find_alloc (on_allocs n) key = Some old ->
+  wf delta -> rsmall delta -> (forall k, getz delta k = getz newres k - getz (oa_res old) k) ->
+  NodeLedger (n_update_alloc n key newres delta).
+Proof. unfold n_update_alloc. intros [L1 L2 L3] [Wt Wo Wa Wv Wl Wf Kl Kf] [St So Sa Sv Sl Sf] E Wd Sd Hd.
+  change (map (fun y => if (oa_key y =? key)%N then oa_with_res y newres else y) (on_allocs n)) with (set_res key newres (on_allocs n)).
+  assert (G : forall k, getz (Prune (addTo (on_allocated n) delta)) k = getz (on_allocated n) k + getz delta k).
+  { intros k. specialize (Sa k); specialize (Sd k). rewrite Prune_getz by (apply addTo_wf; assumption).
+    apply addTo_getz; try assumption; sm. }
+  apply n_refresh_ledger; nproj; try assumption.
+  - apply Prune_wf, addTo_wf. assumption.
+  - intros k. rewrite G. specialize (Sa k); specialize (Sd k). sm.
+  - intros k. specialize (So k). sm.
+  - intros k. rewrite G, asum_set_res, E, L1, Hd by assumption. reflexivity. Qed.
+
+(* ------------------------------------------------------------------ UpdateForeignAllocation *)
+Theorem n_update_foreign_ledger n x old :
+  NodeLedger n -> NodeWF n -> NodeSmall n -> find_alloc (on_foreign n) (oa_key x) = Some old ->
+  wf (oa_res x) -> rsmall (oa_res x) ->
+  NodeLedger (n_update_foreign n x).
+Proof. unfold n_update_foreign. intros [L1 L2 L3] [Wt Wo Wa Wv Wl Wf Kl Kf] [St So Sa Sv Sl Sf] E Wx Sx. rewrite E.
+  assert (Wold := allocs_wf_find _ _ _ Wf E). assert (Sold : rsmall (oa_res old)) by (apply Sf; apply (find_alloc_some _ _ _ E)).
+  cbn [Sub oget]. set (delta := Prune (subFrom (oa_res x) (oa_res old))).
+  assert (Wd : wf delta) by (apply Prune_wf, subFrom_wf; assumption).
+  assert (Gd : forall k, getz delta k = getz (oa_res x) k - getz (oa_res old) k).
+  { intros k. unfold delta. rewrite Prune_getz by (apply subFrom_wf; assumption). specialize (Sx k); specialize (Sold k).
+    apply subFrom_getz; try assumption; sm. }
+  assert (G : forall k, getz (Prune (addTo (on_occupied n) delta)) k = getz (on_occupied n) k + getz delta k).
+  { intros k. rewrite Prune_getz by (apply addTo_wf; assumption). specialize (Gd k). specialize (Sx k); specialize (Sold k); specialize (So k).
+    apply addTo_getz; try assumption; sm. }
+  apply n_refresh_ledger; nproj; try assumption.
+  - apply Prune_wf, addTo_wf. assumption.
+  - intros k. specialize (Sa k). sm.
+  - intros k. rewrite G, Gd. specialize (Sx k); specialize (Sold k); specialize (So k). sm.
+  - intros k. rewrite G, Gd, asum_put, E, L2 by assumption. lia. Qed.
+Lemma n_update_foreign_wf n x : NodeWF n -> wf (oa_res x) -> NodeWF (n_update_foreign n x).
+Proof. unfold n_update_foreign. intros [Wt Wo Wa Wv Wl Wf Kl Kf] Wx. destruct (find_alloc (on_foreign n) (oa_key x)) as [old|] eqn:E.
+  - apply n_refresh_wf. split; nproj; try assumption; [|apply allocs_wf_put; assumption|apply akeys_put_nodup; assumption].
+    apply Prune_wf, addTo_wf. assumption.
+  - split; nproj; try assumption; [apply allocs_wf_put; assumption|apply akeys_put_nodup; assumption]. Qed.
+Lemma n_update_foreign_id n x : on_id (n_update_foreign n x) = on_id n.
+Proof. unfold n_update_foreign. destruct (find_alloc (on_foreign n) (oa_key x)); reflexivity. Qed.
+
+(* the recorded known finding C01-foreign-moved: UpdateForeignAllocation stores the object before it checks that
+   the node lists the allocation; for an allocation NOT on the node nothing is accounted and the ledger breaks *)
+Definition wit_node : onode := mkON 1%N [(1%N, 10)] [] [] [(1%N, 10)] true [] [] [].
+Definition wit_foreign : oalloc := mkOA 7%N 0%N 1%N [(1%N, 3)] false 0%N true false false 0%N 0%N 0 true false false false.
+Theorem n_update_foreign_unknown_refuted :
+  exists n x, node_ledger_ok n = true /\ find_alloc (on_foreign n) (oa_key x) = None /\ wf (oa_res x) /\ rsmall (oa_res x) /\
+              node_ledger_ok (n_update_foreign n x) = false.
+Proof. exists wit_node, wit_foreign. split; [vm_compute; reflexivity|]. split; [vm_compute; reflexivity|].
+  split; [repeat constructor; cbn; tauto|]. split; [|vm_compute; reflexivity].
+  intros k. unfold getz. cbn. destruct (k =? 1)%N; sm. Qed.
+
+(* ------------------------------------------------------------------ negative available entries *)
+Lemma node_has_negative_spec n : wf (on_available n) ->
+  (node_has_negative n = false <-> forall k, 0 <= getz (on_available n) k).
+Proof. intros W. change (node_has_negative n) with (HasNegativeValue (Some (on_available n))).
+  pose proof (HasNegativeValue_spec (Some (on_available n)) W) as H. cbn [oget] in H. split.
+  - intros E k. destruct (Z.ltb_spec (getz (on_available n) k) 0) as [C|]; [|assumption].
+    assert (T : HasNegativeValue (Some (on_available n)) = true) by (apply H; eauto). congruence.
+  - intros E. apply not_true_is_false. intros T. apply H in T. destruct T as [k T]. specialize (E k). lia. Qed.
+
+Definition res_nonnegP (r : res) : Prop := forall k, 0 <= getz r k.
+
+(* an unforced addition never drives an entry negative *)
+Lemma n_add_unforced_nonneg n x n' : n_add n x false = Some n' -> wf (on_available n) -> wf (oa_res x) ->
+  rsmall (on_available n) -> rsmall (oa_res x) ->
+  res_nonnegP (on_available n) -> res_nonnegP (on_available n').
+Proof. unfold n_add. cbn [orb]. intros H Wv Wx Sv Sx Hn.
+  destruct (FitIn (Some (on_available n)) (Some (oa_res x))) eqn:E; [|discriminate].
+  assert (G : forall k, getz (Prune (subFrom (on_available n) (oa_res x))) k = getz (on_available n) k - getz (oa_res x) k).
+  { intros k. rewrite Prune_getz by (apply subFrom_wf; assumption). specialize (Sv k); specialize (Sx k).
+    apply subFrom_getz; try assumption; sm. }
+  assert (F : forall k, getz (oa_res x) k <= Z.max 0 (getz (on_available n) k)).
+  { intros k. unfold getz at 1. destruct (get (oa_res x) k) as [v|] eqn:Eg; [|lia].
+    apply (FitIn_spec (Some (on_available n)) (Some (oa_res x)) Wx) with (k := k) (v := v) in E; assumption. }
+  inversion H; subst n'. intros k. specialize (F k). specialize (Hn k).
+  destruct (oa_foreign x); nproj; rewrite G; lia. Qed.
+
+
+Lemma n_remove_nonneg n key : NodeWF n -> NodeSmall n ->
+  (forall x, In x (on_allocs n) \/ In x (on_foreign n) -> res_nonnegP (oa_res x)) ->
+  res_nonnegP (on_available n) -> res_nonnegP (on_available (n_remove n key)).
+Proof. unfold n_remove. intros [Wt Wo Wa Wv Wl Wf Kl Kf] [St So Sa Sv Sl Sf] Hx Hn.
+  destruct (find_alloc (on_allocs n) key) as [x|] eqn:E1; [|destruct (find_alloc (on_foreign n) key) as [x|] eqn:E2];
+    [| |assumption].
+  - assert (Wx := allocs_wf_find _ _ _ Wl E1). apply find_alloc_some in E1. destruct E1 as [E1 _].
+    intros k. nproj. specialize (Sl x E1 k). specialize (Hx x (or_introl E1) k). specialize (Sv k). specialize (Hn k).
+    rewrite addTo_getz; try assumption; sm.
+  - assert (Wx := allocs_wf_find _ _ _ Wf E2). apply find_alloc_some in E2. destruct E2 as [E2 _].
+    intros k. nproj. specialize (Sf x E2 k). specialize (Hx x (or_intror E2) k). specialize (Sv k). specialize (Hn k).
+    rewrite addTo_getz; try assumption; sm. Qed.
+
+Lemma new_node_ledger id cap drain : NodeLedger (new_node id cap drain).
+Proof. split; cbn [new_node on_allocated on_allocs on_occupied on_foreign on_available on_total]; intros k;
+  [reflexivity|reflexivity|]. change (getz [] k) with 0. lia. Qed.
+Lemma new_node_wf id cap drain : wf cap -> NodeWF (new_node id cap drain).
+Proof. intros W. split; cbn [new_node on_allocated on_allocs on_occupied on_foreign on_available on_total];
+  try (apply Prune_wf; assumption); try apply wf_nil; try (intros x []); constructor. Qed.
+Lemma new_node_nonneg id cap drain : wf cap -> res_nonnegP cap -> res_nonnegP (on_available (new_node id cap drain)).
+Proof. intros W H k. cbn [new_node on_available]. rewrite Prune_getz by assumption. apply H. Qed.
+
+(* ------------------------------------------------------------------ the hypotheses are satisfiable *)
+Definition ex_alloc (key : N) (r : res) (foreign : bool) : oalloc :=
+  mkOA key 1%N 1%N r false 0%N true false false 0%N 0%N 0 foreign false false false.
+Definition ex_node : onode :=
+  mkON 1%N [(1%N, 100); (2%N, 8)] [(1%N, 5)] [(1%N, 30); (2%N, 3)] [(1%N, 65); (2%N, 5)] true
+       [ex_alloc 11%N [(1%N, 10); (2%N, 1)] false; ex_alloc 12%N [(1%N, 20); (2%N, 2)] false]
+       [ex_alloc 21%N [(1%N, 5)] true] [].
+
+Lemma rsmall_check r : forallb (fun kv => (- lim <=? snd kv) && (snd kv <=? lim)) r = true -> rsmall r.
+Proof. intros H k. unfold getz. destruct (get r k) as [v|] eqn:E; [|apply small_0].
+  apply get_some_in in E. rewrite forallb_forall in H. specialize (H _ E). cbn [snd] in H. unfold small. lia. Qed.
+Lemma wf_check r : (fix nd (l : list N) := match l with [] => true | a :: t => negb (memN a t) && nd t end) (keys r) = true -> wf r.
+Proof. unfold wf. induction (keys r) as [|a t IH]; [constructor|]. rewrite andb_true_iff, negb_true_iff. intros [H1 H2].
+  constructor; [|auto]. intros C. assert (T : memN a t = true); [|congruence].
+  unfold memN. apply existsb_exists. exists a. split; [assumption|apply N.eqb_refl]. Qed.
+
+Example ex_node_ok : NodeLedger ex_node /\ NodeWF ex_node /\ NodeSmall ex_node.
+Proof. split; [apply node_ledger_reflect; vm_compute; reflexivity|]. split.
+  - split; try (apply wf_check; vm_compute; reflexivity);
+      try (intros x Hin; cbn in Hin; repeat (destruct Hin as [<-|Hin]; [apply wf_check; vm_compute; reflexivity|]); destruct Hin);
+      cbn; repeat constructor; cbn; intuition discriminate.
+  - split; try (apply rsmall_check; vm_compute; reflexivity);
+      intros x Hin; cbn in Hin; repeat (destruct Hin as [<-|Hin]; [apply rsmall_check; vm_compute; reflexivity|]); destruct Hin. Qed.
+(* every operation is exercised on the example node, and the executable oracle agrees *)
+Example ex_node_ops :
+  node_ledger_ok ex_node = true /\
+  match n_add ex_node (ex_alloc 13%N [(1%N, 60); (2%N, 5)] false) false with Some n' => node_ledger_ok n' | None => false end = true /\
+  n_add ex_node (ex_alloc 13%N [(1%N, 66)] false) false = None /\
+  match n_add ex_node (ex_alloc 13%N [(1%N, 66)] false) true with Some n' => node_ledger_ok n' && node_has_negative n' | None => false end = true /\
+  node_ledger_ok (n_remove ex_node 11%N) = true /\ node_ledger_ok (n_remove ex_node 21%N) = true /\
+  node_ledger_ok (fst (n_set_capacity ex_node [(1%N, 20)])) = true /\
+  node_ledger_ok (n_update_alloc ex_node 11%N [(1%N, 12); (2%N, 1)] [(1%N, 2)]) = true /\
+  node_ledger_ok (n_update_foreign ex_node (ex_alloc 21%N [(1%N, 9)] true)) = true.
+Proof. vm_compute. repeat split. Qed.
